@@ -115,21 +115,26 @@ func (t *template) Frag(ctx context.Context) iter.Seq[string] {
 					break
 				}
 
-				if named.Len() > 0 {
-					name := named.String()
+				if named.Len() == 0 {
+					// a bare '@' is ordinary text; c already holds the character after it
+					if !yield("@") {
+						return
+					}
+					continue
+				}
 
-					if v, ok := argSet[name]; ok {
-						if v.IsNil() {
-							continue
-						}
+				name := named.String()
 
-						for code := range v.Frag(ctx) {
-							if !yield(code) {
-								return
-							}
+				v, ok := argSet[name]
+				if !ok {
+					panic(fmt.Sprintf("missing named arg `%s` in %s", name, t.format))
+				}
+
+				if v != nil && !v.IsNil() {
+					for code := range v.Frag(ctx) {
+						if !yield(code) {
+							return
 						}
-					} else {
-						panic(fmt.Sprintf("missing named arg `%s` in %s", name, t.format))
 					}
 				}
 
